@@ -212,15 +212,16 @@ and arrays stays with the Python reference (`embref.logical_equal`, every EQ com
 run). -/
 
 open Emboss.ViewRef in
-theorem C20_equals_iff_logical_partial (m : Module) (hm : refModule m = true) (hwfm : moduleWF m = true)
-    (hlocm : reqLocalModule m = true) (sd : StructDef) (href : refStruct m sd = true)
-    (hloc : reqLocal sd = true) (hsc : scalarFields sd = true) (huniq : namesUnique sd)
+theorem C20_equals_iff_logical_partial (m : Module) (hwfm : moduleWF m = true) (sd : StructDef) (d : Nat)
+    (hfr : reachOK m d sd = true) (hsc : scalarFields sd = true) (huniq : namesUnique sd)
     (ps : Option (List Val)) (sa sb : Storage)
     (hwa : viewWF { sd := sd, params := ps, st := sa } = true)
     (hwb : viewWF { sd := sd, params := ps, st := sb } = true) (n k : Nat)
     (hfuel : ∀ f ∈ sd.fields, need m (n + 1) sd [f.name] = true) :
     viewEquals (G m n) m (k + 1) { sd := sd, params := ps, st := sa } { sd := sd, params := ps, st := sb } = true ↔
       LogicallyEqual m { sd := sd, params := ps, st := sa } { sd := sd, params := ps, st := sb } := by
+  have hm := closed_reach m
+  have hP : ∃ d, reachOK m d sd = true := ⟨d, hfr⟩
   have hscf : ∀ f ∈ sd.fields, ∀ start size ty bo, f.kind = .phys start size ty bo →
       ∃ kk bits req, ty = .scalar kk bits req := by
     intro f hfm start size ty bo hk
@@ -254,7 +255,7 @@ theorem C20_equals_iff_logical_partial (m : Module) (hm : refModule m = true) (h
           simp only [Bool.and_eq_true, beq_iff_eq, Bool.or_eq_true, Bool.not_eq_true'] at hfe
           obtain ⟨hab, hval⟩ := hfe
           subst hab
-          refine ⟨ha, (G_sound m hm (n + 1) _ href hwa).2 _ _ hA, (G_sound m hm (n + 1) _ href hwb).2 _ _ hB, ?_⟩
+          refine ⟨ha, (G_sound m hm (n + 1) _ hP hwa).2 _ _ hA, (G_sound m hm (n + 1) _ hP hwb).2 _ _ hB, ?_⟩
           intro hc
           subst hc
           rcases hval with hval | hval
@@ -268,8 +269,8 @@ theorem C20_equals_iff_logical_partial (m : Module) (hm : refModule m = true) (h
                 rw [hRA, hRB] at hval
                 simp only [beq_iff_eq] at hval
                 subst hval
-                exact ⟨x, (G_sound m hm (n + 1) _ href hwa).1 _ _ hRA,
-                  (G_sound m hm (n + 1) _ href hwb).1 _ _ hRB⟩
+                exact ⟨x, (G_sound m hm (n + 1) _ hP hwa).1 _ _ hRA,
+                  (G_sound m hm (n + 1) _ hP hwb).1 _ _ hRB⟩
   · intro h
     refine ⟨by cases ps <;> simp, ?_⟩
     intro f hfm
@@ -282,15 +283,15 @@ theorem C20_equals_iff_logical_partial (m : Module) (hm : refModule m = true) (h
       subst hty
       obtain ⟨c, fa, fb, hv⟩ := h f hfm (by simp [isPhys, hk])
       have hn := hfuel f hfm
-      have hA := G_complete m hm hwfm hlocm (n + 1) _ _ fa href hloc hwa hn
-      have hB := G_complete m hm hwfm hlocm (n + 1) _ _ fb href hloc hwb hn
+      have hA := G_complete m hm hwfm (n + 1) _ _ fa hP hwa hn
+      have hB := G_complete m hm hwfm (n + 1) _ _ fb hP hwb hn
       rw [fieldEquals_scalar m n ⟨sd, ps, sa⟩ ⟨sd, ps, sb⟩ rfl _ hf hk, hA, hB]
       cases c with
       | false => simp
       | true =>
         obtain ⟨v, va, vb⟩ := hv rfl
-        have hRA := G_complete m hm hwfm hlocm (n + 1) _ _ va href hloc hwa hn
-        have hRB := G_complete m hm hwfm hlocm (n + 1) _ _ vb href hloc hwb hn
+        have hRA := G_complete m hm hwfm (n + 1) _ _ va hP hwa hn
+        have hRB := G_complete m hm hwfm (n + 1) _ _ vb hP hwb hn
         rw [hRA, hRB]
         simp
 
@@ -322,18 +323,19 @@ example :
 parameters, same presence of every physical field, equal values of present scalar fields, and for
 a present field of structure / `bits` type the two views *R assigns to the field* (`SubViewR`:
 inner definition, argument values, sub-window — the premises of R's rule `sub`) are logically
-equal one level down.  The theorem holds for every module of the refinement fragment without
-array fields (`ModOK`; arrays: the generated `Equals` compares clamped element counts, which R
+equal one level down.  The theorem holds for every family `P` of structures of the refinement fragment closed under
+"type of a field", without array fields (`ModOK`: e.g. all structures of a module, or the ones
+reachable from one structure; arrays: the generated `Equals` compares clamped element counts, which R
 defines for complete arrays only — stays with the Python reference and the post-copy follow-ups),
 every pair of views of a structure of the module, every fuel `k` (= nesting depth explored, the
 same on both sides; `k = 0` is "out of fuel" = `false` on both). -/
 
 open Emboss.ViewRef in
-theorem C20_equals_iff_logical_nested_partial (m : Module) (n : Nat) (h : ModOK m n) (k : Nat)
-    (wa wb : SView) (hmem : wa.sd ∈ m.structs) (hsd : wb.sd = wa.sd)
+theorem C20_equals_iff_logical_nested_partial (m : Module) (n : Nat) (P : StructDef → Prop)
+    (h : ModOK m n P) (k : Nat) (wa wb : SView) (hP : P wa.sd) (hsd : wb.sd = wa.sd)
     (hwa : viewWF wa = true) (hwb : viewWF wb = true) :
     viewEquals (G m n) m k wa wb = true ↔ LogEq m k wa wb :=
-  viewEquals_iff_logEq m n h k wa wb hmem hsd hwa hwb
+  viewEquals_iff_logEq m n h k wa wb hP hsd hwa hwb
 
 /-- `struct Out2: 0 [+1] UInt n / if n > 0: n [+2] In(n) in / let v = in.s` (C01's nested example
 without its array) -/
@@ -343,12 +345,17 @@ def exOuter2 : StructDef :=
 def exNest2 : Module := { structs := [exOuter2, exInner, exBits] }
 
 open Emboss.ViewRef in
-theorem exNest2_ok : ModOK exNest2 6 where
-  ref := by decide
+theorem exNest2_ok : ModOK exNest2 6 (fun sd => sd ∈ exNest2.structs) where
+  closed := closed_of_refModule (by decide) (by decide)
   wf := by decide
-  loc := by decide
-  noarr := by decide
-  fuel := by decide
+  noarr := by
+    intro sd hsd
+    simp only [exNest2, List.mem_cons, List.not_mem_nil, or_false] at hsd
+    rcases hsd with rfl | rfl | rfl <;> decide
+  fuel := by
+    intro sd hsd
+    simp only [exNest2, List.mem_cons, List.not_mem_nil, or_false] at hsd
+    rcases hsd with rfl | rfl | rfl <;> decide
   uniq := by
     intro sd hsd
     simp only [exNest2, List.mem_cons, List.not_mem_nil, or_false] at hsd
@@ -375,11 +382,11 @@ example : LogEq exNest2 3 (rootView exOuter2 [] [2, 255, 7, 165]) (rootView exOu
     ¬ LogEq exNest2 3 (rootView exOuter2 [] [2, 255, 7, 165]) (rootView exOuter2 [] [2, 255, 7, 164]) := by
   have hmem : ∀ d, (rootView exOuter2 [] d).sd ∈ exNest2.structs := fun _ => List.mem_cons_self
   constructor
-  · exact (C20_equals_iff_logical_nested_partial exNest2 6 exNest2_ok 3
+  · exact (C20_equals_iff_logical_nested_partial exNest2 6 _ exNest2_ok 3
       (rootView exOuter2 [] [2, 255, 7, 165]) (rootView exOuter2 [] [2, 0, 7, 165])
       (hmem _) rfl (by decide) (by decide)).mp (by decide)
   · intro hc
-    have := (C20_equals_iff_logical_nested_partial exNest2 6 exNest2_ok 3
+    have := (C20_equals_iff_logical_nested_partial exNest2 6 _ exNest2_ok 3
       (rootView exOuter2 [] [2, 255, 7, 165]) (rootView exOuter2 [] [2, 255, 7, 164])
       (hmem _) rfl (by decide) (by decide)).mpr hc
     revert this
